@@ -140,6 +140,9 @@ import sys
 sys.path.insert(0, "/verif")
 from bounded import C08
 cases, nontrivial, fails = C08.sweep(4, limit=1)
+if not fails:
+    cases2, fails = C08.sweep_holes(3, limit=1)           # the same logs after compaction removed one whole batch
+    cases += cases2
 VIOLATED = bool(fails)
 DETAIL = ("real PartitionRecords against the Java filter and transaction ground truth on %d small logs: %r" % (cases, fails[:1])
           if fails else "agrees on %d small logs" % cases)
